@@ -33,7 +33,7 @@ bytes are the same whenever they are drained.
 
 ASSUMPTIONS = ['OwningIovec delivers what was pushed (C03/C04)']
 
-FLOORS = {'R2.1': 4, 'R2.2': 4, 'R2.3': 4, 'R2.4': 8, 'R2.5': 8, 'R2.6': 3, 'R2.7': 1}
+FLOORS = {'R2.1': 4, 'R2.2': 5, 'R2.3': 4, 'R2.4': 8, 'R2.5': 8, 'R2.6': 3, 'R2.7': 1}
 
 ES = 'hcobs::encoder::EncoderState'
 
@@ -88,6 +88,17 @@ def r2_2(cx):
     cx.check(len(sites) >= 2 and not bad, 'held-back-byte', sites[0][0] if sites else None, sites[0][1].loc() if sites else None,
              'the held-back byte is re-emitted as [STUFF_SEQUENCE[0]] (%d sites)' % len(sites),
              fail_detail='a one-byte push is not [STUFF_SEQUENCE[0]]: %s' % [show(cs.arg(1))[:60] for f, cs in bad] if bad else 'fewer than 2 held-back-byte emission sites')
+    # hold-back discipline: the held-back byte leaves, and the flag changes, only when the next input is looked at
+    # (consume_once) or at the end of the message (terminate) -- never between two calls, where the FD that
+    # completes the sequence could still arrive
+    allowed = {ES + '::consume_once', ES + '::terminate'}
+    hcobs_fns = [f for f in prog.fns.values() if f.crate == 'hcobs' and f.kind != 'Closure' and not f.d.get('derived')]
+    stray_push = [(f, cs) for f in hcobs_fns for cs in f.calls('OwningIovec::push_copy') if _one_byte_push(cs) and f.name not in allowed]
+    stray_flag = [(f, pos) for f in hcobs_fns for pos, pl, rv in f.stores() if pl['p'] and pl['p'][-1].get('n') == 'maybe_mid_stuff' and f.name not in allowed]
+    cx.check(not stray_push and not stray_flag, 'hold-back-only-in-state-machine', (stray_push or stray_flag or [(None, None)])[0][0], None,
+             'the held-back byte is emitted and maybe_mid_stuff written only in consume_once / terminate',
+             fail_detail='%s releases the held-back 0xFE (or rewrites the flag) outside consume_once / terminate: an FE FD split across two calls reaches the output'
+             % sorted({short(f.name) for f, _ in stray_push + stray_flag}))
     co = prog.fn(ES + '::consume_once')
     # hold-back test: self.maybe_mid_stuff = input[len-1] == STUFF_SEQUENCE[0]
     hb = False
@@ -424,4 +435,10 @@ def r2_7(cx):
     compose(cx, [('R4.1', c04.r4_1), ('R4.2', c04.r4_2), ('R4.3', c04.r4_3), ('R4.6', c04.r4_6)])
 
 
-RULES = [('R2.1', r2_1), ('R2.2', r2_2), ('R2.3', r2_3), ('R2.4', r2_4), ('R2.5', r2_5), ('R2.6', r2_6), ('R2.7', r2_7)]
+def r2_8(cx):
+    """input-method independence: bytes that came in through encode_anchored / encode_read are backed by their anchor until drained (R5.3, R5.4, R5.7, R17.6)"""
+    from . import c05, c17
+    compose(cx, [('R5.3', c05.r5_3), ('R5.4', c05.r5_4), ('R5.7', c05.r5_7), ('R17.6', c17.r17_6)])
+
+
+RULES = [('R2.1', r2_1), ('R2.2', r2_2), ('R2.3', r2_3), ('R2.4', r2_4), ('R2.5', r2_5), ('R2.6', r2_6), ('R2.7', r2_7), ('R2.8', r2_8)]
